@@ -26,6 +26,12 @@ pub trait Engine: Sync {
     /// transport, ...). Each candidate is kept only if the same rule still fires.
     fn simplifications(&self, case: &Self::Case) -> Vec<Self::Case>;
 
+    /// The SUT code this engine drives serialises threads (e.g. on the stdout lock): use worker
+    /// processes instead of worker threads.
+    fn prefers_processes(&self) -> bool {
+        false
+    }
+
     /// A short human-readable rendering of a case for evidence samples.
     fn sample(&self, case: &Self::Case) -> serde_json::Value {
         serde_json::to_value(case).unwrap_or(serde_json::Value::Null)
